@@ -110,6 +110,29 @@ func genNugetRangeList(r *RNG, p *Pool) string {
 	return s
 }
 
+// half-open intervals in every bracket pair, with blank / spaced empty sides (the exclusive pair
+// is routed through parseMixedRange when exactly one side is empty)
+func genNugetHalfOpen(r *RNG, p *Pool) string {
+	a := nugetBound(r, p)
+	lo := r.Pick([]string{"(", "(", "(", "["})
+	hi := r.Pick([]string{")", ")", ")", "]"})
+	e := r.Pick([]string{"", "", " ", "  ", "\t"})
+	switch r.Intn(8) {
+	case 0, 1:
+		return lo + a + "," + e + hi
+	case 2, 3:
+		return lo + e + "," + a + hi
+	case 4:
+		return lo + e + "," + e + hi
+	case 5:
+		return lo + a + "," + e + "," + hi
+	case 6:
+		return lo + e + "," + a + "," + e + hi
+	default:
+		return r.Pick([]string{" ", ""}) + lo + r.Pick(nuget_opsX) + a + "," + e + hi + r.Pick([]string{" ", "", ","})
+	}
+}
+
 func init() {
 	old := versionGens["nuget"]
 	versionGens["nuget"] = func(r *RNG) string {
@@ -118,5 +141,5 @@ func init() {
 		}
 		return old(r)
 	}
-	extraRangeGens["nuget"] = append(extraRangeGens["nuget"], genNugetRangeBracket, genNugetRangeList)
+	extraRangeGens["nuget"] = append(extraRangeGens["nuget"], genNugetRangeBracket, genNugetRangeList, genNugetHalfOpen)
 }
